@@ -855,6 +855,24 @@ pub fn c16_uci_routes(acc: &mut Acc) -> SpaceReport {
         acc.evaluations += 1;
         let text = format!("{} ; {} ; go depth 2", items[x], items[y]);
         let replay = json::obj(vec![("kind", json::s("c16-uci")), ("first", json::s(items[x].clone())), ("second", json::s(items[y].clone()))]);
+        // second route: the first game is searched (depth 1) before the second position arrives - whatever the engine
+        // keeps from a finished search (a working copy of the game, buffers) meets a game of the other phase
+        // (only for games from different starts: the first search leaves its root in the table, and a game from the
+        // same start could meet that entry - a legitimate difference that has nothing to do with the evaluation)
+        let setup = |t: &str| t.split(" moves ").next().unwrap_or("").to_string();
+        if setup(&items[x]) != setup(&items[y]) {
+        match uci_seq(vec![items[x].clone(), "go depth 1".into(), "wait".into(), "isready".into(), items[y].clone(), "go depth 2".into(), "wait".into()]) {
+            Err(e) => acc.violation(format!("c16-uci-died|{} (search between)", text), format!("session died: {} [{} with go depth 1 after the first command]", e, text), replay.clone()),
+            Ok(got) => {
+                acc.transitions += 1;
+                let cut = got.iter().position(|l| l == "readyok").map(|i| i + 1).unwrap_or(0);
+                let (a, b) = (scores(&got[cut..]), scores(want));
+                if a != b {
+                    acc.violation(format!("c16-uci-search-between|{}", text), format!("scores {:?} after an earlier position command that was searched, {:?} on a fresh engine: the evaluation depends on the route [{} ; go depth 1 ; wait ; {} ; go depth 2]", a, b, items[x], items[y]), replay.clone());
+                }
+            }
+        }
+        }
         match uci_seq(vec![items[x].clone(), items[y].clone(), "go depth 2".into(), "wait".into()]) {
             Err(e) => acc.violation(format!("c16-uci-died|{}", text), format!("session died: {} [{}]", e, text), replay),
             Ok(got) => {
@@ -874,7 +892,7 @@ pub fn c16_uci_routes(acc: &mut Acc) -> SpaceReport {
     let states = (n * n) as u64;
     acc.merge(a);
     acc.states += states;
-    SpaceReport { name: format!("interface routes: ordered pairs of position commands over {} items (five starts, paths of length <= 2), scores of a depth-2 search against a fresh engine", n), states, exhaustive: true, note: format!("[{:.1}s]", t0.elapsed().as_secs_f64()) }
+    SpaceReport { name: format!("interface routes: ordered pairs of position commands over {} items (five starts, paths of length <= 2), with and without a depth-1 search of the first game in between; scores of a depth-2 search against a fresh engine", n), states, exhaustive: true, note: format!("[{:.1}s]", t0.elapsed().as_secs_f64()) }
 }
 
 pub fn run(prop: &str, tier: &str, seed: i64) -> Outcome {
